@@ -574,7 +574,11 @@ func AllocRule(w *World, b *Backend, r *Result, rule string, labelsOnly ...bool)
 		}
 	}
 	// helper variable allocator: counter written only inside the allocator
-	for f := range map[string]bool{"varCounter": true} {
+	helperCounter, _ := counterRoles(b)
+	for f := range map[string]bool{helperCounter: true} {
+		if f == "" {
+			continue
+		}
 		writers := map[string]bool{}
 		for _, fn := range w.Funcs(b.Role) {
 			for _, blk := range fn.Blocks {
@@ -631,7 +635,18 @@ func selectCond(t Tmpl, cond string, idx int) Tmpl {
 	return norm(out)
 }
 
-var reHelperName = regexp.MustCompile(`([A-Za-z0-9_]*(?:⟨#field:funcCounter⟩)?[A-Za-z0-9_]*)⟨#field:varCounter(@[\w/]+)⟩`)
+// helperNameRe: a helper name in a template: optional function prefix, stem, helper counter with
+// its allocation mark.
+func helperNameRe(b *Backend) *regexp.Regexp {
+	hc, fc := counterRoles(b)
+	if hc == "" {
+		hc = "\x00"
+	}
+	if fc == "" {
+		fc = "\x00"
+	}
+	return regexp.MustCompile(`([A-Za-z0-9_]*(?:⟨#field:` + regexp.QuoteMeta(fc) + `⟩)?[A-Za-z0-9_]*)⟨#field:` + regexp.QuoteMeta(hc) + `(@[\w/]+)⟩`)
+}
 
 // MangleRule: a helper allocated in a method is named the same way wherever the
 // method writes or returns it (inside a function: mangled everywhere or nowhere).
@@ -694,6 +709,7 @@ func MangleRule(w *World, b *Backend, r *Result, rule string, only ...string) {
 		names = append(names, n)
 	}
 	sort.Strings(names)
+	reHelper := helperNameRe(b)
 	for _, name := range names {
 		if len(only) > 0 && !contains(only, name) {
 			continue
@@ -703,7 +719,7 @@ func MangleRule(w *World, b *Backend, r *Result, rule string, only ...string) {
 		where := map[string][]string{}
 		add := func(t Tmpl, what string) {
 			s := selectCond(t, inFunc, inIdx).String()
-			for _, m := range reHelperName.FindAllStringSubmatch(s, -1) {
+			for _, m := range reHelper.FindAllStringSubmatch(s, -1) {
 				if forms[m[2]] == nil {
 					forms[m[2]] = map[string]bool{}
 				}
